@@ -326,7 +326,7 @@ class AllocSuite(Suite):
 
     def gen_cases(self, rng, tier):
         quick = tier == "quick"
-        n = 4000 if quick else 150000
+        n = 4000 if quick else 300000
         cases = []
         # the listed finding is exercised on every run, by each of its triggers
         for w in ["pause", "relay", "fresh", "fresh-waiters", "bigmap"]:
@@ -334,7 +334,7 @@ class AllocSuite(Suite):
         for i in range(n):
             r = rng.random()
             if r < 0.40:
-                c = gen_random(rng)
+                c = gen_random(rng, nops=None if quick or rng.random() < 0.85 else rng.randint(40, 120))
             elif r < 0.55:
                 c = gen_waiters(rng)
             elif r < 0.67:
